@@ -223,6 +223,7 @@ def _history(tr, uni, lf, lr, ls, ops, a, b, ta=None, tb=None):
 @obligation(params=dict(tr=Int(0, 3), uni=Bool(), lf=Bool(), lr=Bool(), ls=Bool(), o0=Int(0, 3), o1=Int(0, 3), o2=Int(0, 3),
                         a=Text(2), b=Text(2), astext=Bool()),
             tags={2: 'pty', 3: 'fd', 4: 'piped subprocess', 5: 'socket'}, timeout=900, split=('tr', 'uni'),
+            thorough=dict(params=dict(a=Text(3), b=Text(3)), timeout=2500, split=('tr', 'uni', 'o0')),
             note='three operations out of read/send/sendline/sendcontrol, symbolic log configuration, symbolic text payloads')
 def L1_transcript(tr, uni, lf, lr, ls, o0, o1, o2, a, b, astext=False):
     tr = pick(tr, 0, 3)
